@@ -1,4 +1,7 @@
+import re
 from typing import TypeVar, Generic, Pattern, Callable, Iterator, Optional, Sequence
+
+from exactly_lib.common.report_rendering import text_docs
 
 from exactly_lib.definitions.entity import syntax_elements
 from exactly_lib.impls.description_tree import custom_details
@@ -12,6 +15,7 @@ from exactly_lib.impls.types.string_transformer.impl.sources.transformed_string_
 from exactly_lib.symbol.sdv_structure import references_from_objects_with_symbol_references, SymbolReference
 from exactly_lib.tcfs.tcds import TestCaseDs
 from exactly_lib.test_case.app_env import ApplicationEnvironment
+from exactly_lib.test_case.hard_error import HardErrorException
 from exactly_lib.type_val_deps.dep_variants.adv.app_env_dep_val import ApplicationEnvironmentDependentValue
 from exactly_lib.type_val_deps.dep_variants.ddv import ddv_validators
 from exactly_lib.type_val_deps.dep_variants.ddv.ddv_validation import DdvValidator
@@ -220,12 +224,24 @@ class _Adv(ApplicationEnvironmentDependentValue[StringTransformer]):
         self._replacement = replacement
 
     def primitive(self, environment: ApplicationEnvironment) -> StringTransformer:
+        self._raise_hard_error_if_invalid_replacement()
         return _ReplaceStringTransformer(
             ApplicationEnvironmentDependentValue.primitive__optional(self._lines_selector,
                                                                      environment),
             self._preserve_new_lines,
             self._regex,
             self._replacement)
+
+    def _raise_hard_error_if_invalid_replacement(self):
+        """The replacement may be invalid as a template of the regex (e.g. a reference to a non-existing group)."""
+        try:
+            self._regex.sub(self._replacement, '')
+        except (re.error, IndexError) as ex:
+            raise HardErrorException(
+                text_docs.single_pre_formatted_line_object(
+                    'Invalid replacement: {}\n\n{}'.format(ex, self._replacement)
+                )
+            )
 
 
 class _StructureRendererForReplace(NodeRenderer[None]):
